@@ -1500,6 +1500,9 @@ _ret_:
         vmovdqa64       [keys + 8*16], zmm0
         vmovdqa64       [keys + 12*16], ymm0
         vmovdqa64       [keys + 14*16], xmm0
+        ; Clear the tweak values (16*8 bytes): they are E(k2, tweak) and its multiples
+        vmovdqu64       [TW], zmm0
+        vmovdqu64       [TW + 4*16], zmm0
 %else
         vzeroupper
 %endif
